@@ -26,7 +26,7 @@ from props.obj_tree import tlc_coverage
 
 DEV_ORDER = ["props_hold_root", "intro_holds_root", "lazy_subscribe"]
 ACTIONS = ["CreateOS", "ClientSend", "ReaderDeliver", "DispTake", "DoClientReply", "DoAcqRootR", "DoAcqIfR", "DoAnnounceIfW",
-           "DoGetIfW", "DoHStart", "DoHYield", "DoHEmit", "DoHWantWrite", "DoHAnnounceW", "DoHWrote", "DoFinish"]
+           "DoGetIfW", "DoHStart", "DoHYield", "DoHEmit", "DoHWantWrite", "DoHAnnounceW", "DoHWrote", "DoHEnd", "DoFinish"]
 
 
 def show(sc):
